@@ -512,6 +512,13 @@ def gen_cases(tier, seed):
                     if lw in ("pre",) and script:
                         continue
                     cases.append({"waiter": "reset", "tx": i, "rx": j, "script": script, "loss": (lw, kind)})
+    # C2. ... with a DATA frame of the host still unacknowledged (and another queued behind it) at the loss
+    for (i, j) in ntx[:3]:
+        for lw in ["pre", "in", "T-", "late"]:
+            for kind in ["error", "eof", "close"]:
+                for pn in (1, 2):
+                    cases.append({"waiter": "reset", "tx": i, "rx": j, "pending": pn, "script": [], "loss": (lw, kind)})
+                cases.append({"waiter": "startup", "tx": i, "rx": j, "pending": 1, "script": [], "loss": (lw if lw != "pre" else "in", kind)})
     # D. start-up reset waiter under a caller timeout
     for (i, j) in ntx[:2]:
         for w in whens:
